@@ -1372,6 +1372,11 @@ def _inline_helpers(tree, known):
         if id(fn) in own:
             continue
         inl.function(fn)
-        # a nested helper that is no longer called can stay; nothing reads it
+        # a nested helper whose calls were all inlined is dropped: rules walk the whole host function and would read its body a second time
+        for st in list(fn.body):
+            if isinstance(st, ast.FunctionDef) and id(st) in own:
+                used = any(isinstance(x, ast.Name) and x.id == st.name for o in fn.body if o is not st for x in ast.walk(o))
+                if not used and len(fn.body) > 1:
+                    fn.body.remove(st)
     ast.fix_missing_locations(tree)
     return sorted(set(inl.inlined))
